@@ -260,7 +260,7 @@ func H_C07_gate() {
 		cover("still-waiting")
 		assert(!delivered && !returned, "newer events wait while copies disagree or lag")
 		obs.Close()
-		setHorizon(int64(10 * time.Second))
+		setHorizon(nowNs() + int64(time.Second)) // a released waiter returns within one poll; a stuck one polls on until the horizon
 		quiesce()
 		assert(returned && !delivered, "closing the stream releases the waiting event without delivering it")
 	}
